@@ -750,33 +750,101 @@ def ext_eval(e, env):
 
 
 def check_perturb(rep, prog):
+    """perturb_params by what it returns for every combination of present / absent bounds (abstract execution): the perturbed vector
+    clamped with numpy.maximum against a level built from the lower bounds and with numpy.minimum against one built from the upper
+    bounds, each level inside its bound for either sign and equal to the infinity that stands for an absent entry.  Independent of
+    how the two clamps are written (two blocks, a table of (bound, infinity, clamp, factors) rows, named levels)."""
+    from sa import miniexec as mx
+    from sa import alpha as _alpha
     m = prog.mod('dadi.Misc')
     fn = prog.func('dadi.Misc', 'perturb_params')
     rep.saw_function(m.rel + ':perturb_params')
-    singles = single_assignments(fn)
-    res = {}
-    for n in own_nodes(fn):
-        if isinstance(n, ast.Assign) and isinstance(n.value, ast.Call) and _last(dotted(n.value.func)) in ('maximum', 'minimum'):
-            res[_last(dotted(n.value.func))] = n
-    for fnname, bname, kind in (('maximum', 'lower_bound', 'lower'), ('minimum', 'upper_bound', 'upper')):
-        n = res.get(fnname)
-        lvl = inline(n.value.args[1], singles, depth=1) if n is not None and len(n.value.args) == 2 else None
-        ok = n is not None and lvl is not None and ast.unparse(n.value.args[0]) == ast.unparse(n.targets[0]) and bname in names_in(lvl)
-        # guarded by `<bound> is not None`
-        par = getattr(n, '_parent', None) if n is not None else None
-        ok = ok and isinstance(par, ast.If) and bname in names_in(par.test)
-        rep.ob('R-TPL', 'perturb_params %s clamp' % bname, bool(ok),
-               ('clamp is %s' % ast.unparse(n)) if n is not None else 'no numpy.%s clamp found' % fnname, m.rel,
-               n.lineno if n is not None else fn.lineno, what='perturbed values are clamped with %s against %s' % (fnname, bname))
+    known = _alpha.load_table().get('__params__', {}).get(m.rel)
+    known = set(known) if known is not None else None
+    found = {'lower': {}, 'upper': {}}
+    bad = {'lower': [], 'upper': []}
+    try:
+        for has_l in (True, False):
+            for has_u in (True, False):
+                it = mx.Interp(prog, m, known_functions=known, symbolic_loops=True)
+                args = {'params': mx.Sym('params'), 'fold': mx.Sym('fold'), 'lower_bound': mx.Sym('lower_bound', truth=True) if has_l else None,
+                        'upper_bound': mx.Sym('upper_bound', truth=True) if has_u else None}
+                paths = [p_ for p_ in it.run(fn, args) if p_[0][0] == 'return']
+                if not paths:
+                    raise mx.Undecidable('no returning path')
+                for outcome, events, _d in paths:
+                    v = outcome[1]
+                    clamps = {}
+                    while True:
+                        c_ = mx.call_of(v, 'maximum') or mx.call_of(v, 'minimum')
+                        if c_ is None or len(c_[0]) != 2:
+                            break
+                        kind = 'lower' if mx.call_of(v, 'maximum') is not None else 'upper'
+                        clamps.setdefault(kind, []).append(c_[0][1])
+                        v = c_[0][0]
+                    for kind, has in (('lower', has_l), ('upper', has_u)):
+                        lv = clamps.get(kind, [])
+                        if has and len(lv) != 1:
+                            bad[kind].append('%d clamps with numpy.%s when %s_bound is given' % (len(lv), 'maximum' if kind == 'lower' else 'minimum', kind))
+                        if not has and lv:
+                            bad[kind].append('clamped although %s_bound is None' % kind)
+                        if has and len(lv) == 1:
+                            found[kind].setdefault(mx.show(lv[0]), lv[0])
+    except mx.Undecidable as e:
+        for kind in ('lower', 'upper'):
+            rep.ob('R-TPL', 'perturb_params %s_bound clamp' % kind, False, 'perturb_params is not recognised: %s' % e, m.rel, fn.lineno, what='perturbed values are clamped against %s_bound' % kind)
+        return
+    for kind, fnname in (('lower', 'maximum'), ('upper', 'minimum')):
+        bname = kind + '_bound'
+        levels = found[kind]
+        # the array of bounds inside the level: asarray / array of [inf-or-bound for bound in <bound list>]
+        elts, texts = set(), []
+        for txt, lvl in levels.items():
+            arrs = []
+
+            def walk(x):
+                if isinstance(x, mx.Sym) and x.struct:
+                    c_ = mx.call_of(x, 'asarray') or mx.call_of(x, 'array')
+                    if c_ is not None and c_[0] and isinstance(c_[0][0], mx.Sym) and c_[0][0].struct and c_[0][0].struct[0] == 'comp':
+                        arrs.append(x)
+                        return
+                    for y in x.struct[1:]:
+                        if isinstance(y, (tuple, list)):
+                            for z in y:
+                                walk(z)
+                        elif isinstance(y, dict):
+                            for z in y.values():
+                                walk(z)
+                        else:
+                            walk(y)
+            walk(lvl)
+            t = txt
+            for a in arrs:
+                comp = (mx.call_of(a, 'asarray') or mx.call_of(a, 'array'))[0][0]
+                if mx.show(comp.struct[2]) != bname:
+                    bad[kind].append('level built from %s' % mx.show(comp.struct[2])[:30])
+                elts.add(mx.show(comp.struct[1]).strip('()'))
+                t = t.replace(mx.show(a), 'lb' if kind == 'lower' else 'ub')
+            if not arrs:
+                bad[kind].append('level %s does not contain the array of bounds' % txt[:50])
+            texts.append(t)
+        want_elts = {'-numpy.inf', 'bound'} if kind == 'lower' else {'numpy.inf', 'bound'}
+        var = next(iter(e_ for e_ in elts if e_ not in ('-numpy.inf', 'numpy.inf', '-np.inf', 'np.inf')), 'bound')
+        norm = {e_.replace('np.', 'numpy.') if 'inf' in e_ else 'bound' for e_ in elts}
+        if levels and norm != want_elts:
+            bad[kind].append('entries of the bound array are %s (an absent entry must become %s)' % (sorted(elts), '-inf' if kind == 'lower' else '+inf'))
+        ok = not bad[kind] and len(set(texts)) == 1
+        rep.ob('R-TPL', 'perturb_params %s clamp' % bname, bool(ok), ('clamp level %s' % texts[0][:100]) if ok else '; '.join(bad[kind][:2]) or 'levels %s' % texts[:2], m.rel, fn.lineno,
+               what='perturbed values are clamped with %s against %s' % (fnname, bname))
         if ok:
-            # strip the asarray(...) wrapper introduced by the alias, then decide the sign condition
-            lvl0 = n.value.args[1]
+            try:
+                lvl0 = ast.parse(texts[0], mode='eval').body
+            except SyntaxError:
+                raise AnalysisError('perturb_params: clamp level %s cannot be read back' % texts[0][:60])
             verdict, why = clamp_level_inside(lvl0, kind)
             if verdict is None:
                 raise AnalysisError('perturb_params: ' + why)
-            rep.ob('R-SIGN', 'perturb_params %s clamp' % bname, verdict, why, m.rel, n.lineno,
-                   what='clamp level is inside the bounds for either sign of the bound')
-            # an absent bound is replaced by -inf / +inf: the clamp level must then be that infinity (no effect), not inf - inf
+            rep.ob('R-SIGN', 'perturb_params %s clamp' % bname, verdict, why, m.rel, fn.lineno, what='clamp level is inside the bounds for either sign of the bound')
             bvar = [x for x in names_in(lvl0) if x in ('lb', 'ub', bname)]
             try:
                 v = ext_eval(lvl0, {bv: ('inf', -1 if kind == 'lower' else 1) for bv in bvar})
@@ -784,7 +852,7 @@ def check_perturb(rep, prog):
                 det = 'level at an absent bound evaluates to %s' % (v,)
             except AlgebraError as e_:
                 oki, det = False, 'level not evaluable at an infinite bound: %s' % e_
-            rep.ob('R-DOM', 'perturb_params %s clamp at an absent bound' % bname, oki, det, m.rel, n.lineno,
+            rep.ob('R-DOM', 'perturb_params %s clamp at an absent bound' % bname, oki, det, m.rel, fn.lineno,
                    what='None / infinite bounds leave the perturbed value unchanged (the level is the same infinity, never nan)')
 
 
